@@ -151,23 +151,30 @@ def make_reg():
             it.raise_("AssertionError")
         if it.ctx.choose([z3.BoolVal(True), z3.BoolVal(True)], "hex-ok") == 1:
             it.raise_("binascii.Error")
-        return VStr(uf("unhex", StringS, StringS)(h.z), "bytes")
+        return fresh_bytes(it, "unhex")
 
     def bytes_to_hexstr(it, args, kw, fr):
-        b = it.force(args[0])
-        return VStr(uf("hexstr", StringS, StringS)(b.z), "str")
+        return VStr(z3.String(it.ctx.namer("hexstr")), "str")
 
     fm[W + "util.py:bytes_to_dict"] = bytes_to_dict
     fm[W + "util.py:dict_to_bytes"] = dict_to_bytes
     fm[W + "util.py:hexstr_to_bytes"] = hexstr_to_bytes
     fm[W + "util.py:bytes_to_hexstr"] = bytes_to_hexstr
-    fm[W + "util.py:to_bytes"] = lambda it, a, k, f: VStr(uf("to_bytes", StringS, StringS)(it.force(a[0]).z), "bytes")
+    # at this level the *values* of keys, digests and ciphertexts do not matter (C01/C02 prove those
+    # function by function): they are fresh byte strings of the right length, which keeps
+    # uninterpreted functions over strings out of the path conditions
+    def fresh_bytes(it, name, n=None):
+        z = z3.String(it.ctx.namer(name))
+        if n is not None:
+            it.ctx.assume(z3.Length(z) == n)
+        return VStr(z, "bytes")
+
+    fm[W + "util.py:to_bytes"] = lambda it, a, k, f: fresh_bytes(it, "to_bytes")
 
     def hkdf(it, args, kw, fr):
         skm = it.force(args[0])
         outlen = it.force(args[1])
-        info = it.force(kw.get("CTXinfo", VStr(b"")))
-        r = uf("HKDF", StringS, IntS, StringS, StringS)(skm.z, outlen.z, info.z)
+        r = z3.String(it.ctx.namer("hkdf"))
         it.ctx.assume(z3.Length(r) == outlen.z)
         return VStr(r, "bytes")
 
@@ -214,9 +221,7 @@ def make_reg():
     em["hashlib.sha256"] = sha256
 
     def sha_digest(it, recv, meth, args, kwargs, fr):
-        d = uf("sha256", StringS, StringS)(recv.fields["data"].z)
-        it.ctx.assume(z3.Length(d) == 32)
-        return VStr(d, "bytes")
+        return fresh_bytes(it, "sha256", 32)
 
     reg.boundary["sha256.digest"] = sha_digest
 
